@@ -146,7 +146,7 @@ def instances(ck):
     from cnfgen.families.pitfall import PitfallFormula
     shapes = [(2, 1, 2, 2, 2), (4, 2, 2, 2, 2), (4, 3, 3, 2, 2), (6, 3, 3, 2, 4), (4, 2, 2, 1, 2), (4, 1, 1, 2, 2)]
     if not q:
-        shapes += [(4, 1, 2, 3, 2), (5, 2, 4, 2, 2), (6, 2, 2, 2, 4), (8, 3, 5, 3, 2), (4, 3, 2, 4, 6)]
+        shapes += [(4, 1, 2, 3, 2), (5, 2, 4, 2, 2), (6, 2, 2, 2, 4), (8, 3, 5, 3, 2), (4, 3, 2, 4, 4)]
     for j, (v, d, ny, nz, k) in enumerate(shapes):
         for t in range(1 if q else 3):
             def mk(c, v=v, d=d, ny=ny, nz=nz, k=k, t=t):
